@@ -22,6 +22,19 @@ honest publisher, composing network, the four public constructors of
     from.  Acceptance by the *unchecked* constructors is not compared (the property only requires
     their results to be safe to inspect).
 
+Relay payload forms (follow-up): besides the bare payload `<sig><ts><dns>`, from_relay_payload(k, ..) is
+offered the *complete* wire encoding `<key'><sig><ts><dns>` of every composable packet (action
+OfferRelayFull(k), k in {k1, k2}: authentic packets of another key k', of k itself, and everything
+else) — abstract rows and, concretely, every byte mutant / truncation / crate-built honest packet.
+Invariant RelayBoundToKey (an accepted relay payload yields a packet that carries the requested key
+and is authentic under it) is judged on the real result with independent primitives (returned key
+bytes = requested key, ed25519-dalek verify_strict); the deviating design LenientRelay = TRUE
+("a payload that verifies as a complete packet is returned as it is") is refuted by TLC.  Whether a
+complete authentic packet of k *itself* may be taken for k is left open (weak reading: `judge` =
+false in the table; the result is still judged).  Seeded changes of the coordinator:
+seeded/_incoming/C32/patch.diff (lenient from_relay_payload) => VIOLATION
+kind=relay_payload_not_bound_to_key (k2-signed complete packet accepted for k1).
+
 Growth: specs/dns/PkarrOrder.tla models `more_recent_than` (the order behind "keep the newest packet"):
 TLC checks it is a strict total order on (timestamp, payload) and the answer for every ordered pair
 is compared with the real method on real packets (case kind "order").
@@ -52,24 +65,29 @@ META = {
 }
 
 
-def pkey(pkt, ctor):
-    return json.dumps([pkt["len"], pkt["key"], pkt["sig"]["k"], pkt["sig"]["ts"], pkt["sig"]["pl"], pkt["ts"], pkt["pl"], ctor])
+def pkey(pkt, ctor, rk="-", form="-"):
+    if ctor == "from_relay_payload" and form in ("-", "bare"):
+        rk, form = pkt["key"], "bare"
+    return json.dumps([pkt["len"], pkt["key"], pkt["sig"]["k"], pkt["sig"]["ts"], pkt["sig"]["pl"], pkt["ts"], pkt["pl"], ctor, rk, form])
 
 
 def run(ctx):
     acts = ["Publish", "Compose", "Offer", "InspectAll"]
     # required design: invariants hold; the same run prints the decision table
     res = ctx.tlc("dns", "Pkarr", cfg="Gen_Pkarr.cfg", mode="gen", timeout=3000, require_actions=acts,
-                  constants={"UncheckedValidatesKey": "TRUE", "MaxPublish": 1})
+                  constants={"UncheckedValidatesKey": "TRUE", "LenientRelay": "FALSE", "MaxPublish": 1})
     # code as written: refuted
     ctx.tlc("dns", "Pkarr", cfg="Pkarr.cfg", mode="mc", workers=2, timeout=900, coverage=False,
-            constants={"UncheckedValidatesKey": "FALSE", "MaxPublish": 0}, expect_violation="TotalAccessors")
+            constants={"UncheckedValidatesKey": "FALSE", "LenientRelay": "FALSE", "MaxPublish": 0}, expect_violation="TotalAccessors")
+    # "a payload that verifies as a complete packet is returned as it is": not bound to the requested key
+    ctx.tlc("dns", "Pkarr", cfg="Pkarr.cfg", mode="mc", workers=2, timeout=900, coverage=False,
+            constants={"UncheckedValidatesKey": "TRUE", "LenientRelay": "TRUE", "MaxPublish": 0}, expect_violation="RelayBoundToKey")
     # growth beyond C32: the order `more_recent_than` (PkarrOrder.tla): strict total order, expected answer per pair
     ores = ctx.tlc("dns", "PkarrOrder", cfg="PkarrOrder.cfg", mode="gen", timeout=900, coverage=False)
     order = {json.dumps([r["a"], r["b"]], sort_keys=True): r["newer"] for r in ores.replays}
     table = {}
     for r in res.replays:
-        table.setdefault(pkey(r["pkt"], r["ctor"]), r)
+        table.setdefault(pkey(r["pkt"], r["ctor"], r["rk"], r["form"]), r)
     ctx.log("decision table: %d rows" % len(table))
 
     cases = []
@@ -78,7 +96,7 @@ def run(ctx):
         cases = [dict(rep["case"], id=0)]
     else:
         for r in table.values():
-            cases.append({"id": len(cases), "kind": "abstract", "ctor": r["ctor"], "pkt": r["pkt"]})
+            cases.append({"id": len(cases), "kind": "abstract", "ctor": r["ctor"], "pkt": r["pkt"], "rk": r["rk"], "form": r["form"]})
         cases.append({"id": len(cases), "kind": "bytemut", "masks": ctx.pick([0x01, 0x80], [0x01, 0x10, 0x80, 0xff])})
         cases.append({"id": len(cases), "kind": "truncext"})
         cases.append({"id": len(cases), "kind": "pairs", "count": ctx.pick(300, 5000)})
@@ -101,15 +119,16 @@ def run(ctx):
                            {"case": case, "observed": o})
             continue
         abs_, ctor = o["abs"], o["ctor"]
-        replay = {"case": case if case["kind"] != "abstract" else {"kind": "abstract", "ctor": ctor, "pkt": abs_}, "observed": o}
+        replay = {"case": case if case["kind"] != "abstract" else {"kind": "abstract", "ctor": ctor, "pkt": abs_, "rk": o["rk"], "form": o["form"]},
+                  "observed": o}
         if ctor == "from_txt_strings":
             ctx.report({"kind": "panic_in_constructor", "ctor": ctor}, "from_txt_strings panicked: %s (%s)" % (o["insp"], o["note"]), replay)
             continue
-        row = table.get(pkey(abs_, ctor))
+        row = table.get(pkey(abs_, ctor, o["rk"], o["form"]))
         if row is None:
             raise ToolError("abstract packet not in TLC's table: %s %s (%s)" % (abs_, ctor, o["note"]))
         if case["kind"] == "abstract":
-            seen_abstract.add(pkey(abs_, ctor))
+            seen_abstract.add(pkey(abs_, ctor, o["rk"], o["form"]))
         ctx.count(case_key=[abs_, ctor], nontrivial=abs_["len"] == "ok")
         cls = o["cls"]
         if case["kind"] == "honest" and not (cls["len"] == "ok" and cls["point"] and cls["verifies"] and cls["parses"]):
@@ -123,12 +142,19 @@ def run(ctx):
         if abs_["len"] != "ok" and cls["len"] != abs_["len"]:
             raise ToolError("concretisation has length class %s for %s (%s)" % (cls["len"], abs_, o["note"]))
         sig = {"ctor": ctor, "checked": "yes" if row["checked"] else "no", "key": abs_["key"], "len": abs_["len"],
-               "sigterm": "garbage" if abs_["sig"]["k"] == "none" else "signed", "pl": abs_["pl"]}
+               "sigterm": "garbage" if abs_["sig"]["k"] == "none" else "signed", "pl": abs_["pl"], "form": o["form"]}
         if o["err"] == "panic":
             ctx.report(dict(sig, kind="panic_in_constructor"), "%s panicked on %s: %s" % (ctor, o["note"], o["insp"]), replay)
             continue
         exp_ok = row["out"] == "ok"
-        if row["checked"] and o["accepted"] != exp_ok:
+        if ctor == "from_relay_payload" and o["accepted"] and not (o["val_key_ok"] and o["val_verifies"]):
+            # RelayBoundToKey on the real result: the returned packet must carry the requested key and verify under it
+            ctx.report(dict(sig, kind="relay_payload_not_bound_to_key", rk=o["rk"]),
+                       "from_relay_payload for key %s returned a packet %s (%s; offered packet classes %s, payload form %s)"
+                       % (o["rk"], "that carries another key" if not o["val_key_ok"] else "that does not verify", o["note"], abs_, o["form"]),
+                       replay)
+            continue
+        if row["checked"] and row["judge"] and o["accepted"] != exp_ok:
             kind = "accepted_unauthentic" if o["accepted"] else "rejected_authentic"
             ctx.report(dict(sig, kind=kind),
                        "%s %s a packet the spec %s (%s; classes %s; code said %r, spec says %r)"
